@@ -42,5 +42,14 @@ def aps_ack_timeout() -> float:
     return tree_const("bellows.zigbee.application", "APS_ACK_TIMEOUT", 120.0)
 
 
+def retry_delays() -> list:
+    """the 'fixed number of spaced retries' of a busy NCP: the tree's list of delays (its length is the number of attempts)"""
+    try:
+        v = [float(x) for x in getattr(importlib.import_module("bellows.zigbee.application"), "RETRY_DELAYS")]
+        return v if 1 <= len(v) <= 10 else [0.5, 1.0, 1.5]
+    except Exception:
+        return [0.5, 1.0, 1.5]
+
+
 def watchdog_tolerated() -> int:
     return tree_const("bellows.zigbee.application", "MAX_WATCHDOG_FAILURES", 4)
